@@ -35,7 +35,8 @@ def cases(draw, big=False):
     as_dict = len(costs) > 1 or draw(st.booleans())
     return {'spec': spec, 'masks': masks, 'fold_bn': draw(st.booleans()),
             'wseed': draw(st.integers(0, 50)), 'vseed': draw(st.integers(0, 50)),
-            'costs': costs, 'dict': as_dict, 'full_cost': draw(st.booleans())}
+            'costs': costs, 'dict': as_dict, 'full_cost': draw(st.booleans()),
+            'reassign_spec': draw(st.booleans())}
 
 
 def _spec_obj(name):
@@ -125,6 +126,11 @@ def oracle(case) -> Result:
 
     # clause 1: discrete cost of the pruned architecture == metric of the exported network
     mk.apply_pit_masks(pit, spec, masks, case['vseed'], fixed)
+    if case.get('reassign_spec'):
+        # the (same) cost specification assigned again on the pruned model - as done when a
+        # metric is added or swapped in the middle of a search - must not change any value
+        must(res, 'cost_specification-setter', setattr, pit, 'cost_specification',
+             {n: _spec_obj(n) for n in names} if case['dict'] else _spec_obj(names[0]))
     pit.discrete_cost = True
     exported = must(res, 'export', pit.export)
     if exported is None:
